@@ -152,6 +152,35 @@ def clauses_c04(c, H):
         prev_cur = expected_current(it) if run else None
 
 
+def clauses_forced_engage(c, H, P):
+    """engage(force=True[, initial_state]) always (re-)enters its target: the target's next call is a first
+    call (initial_call True, state_tm 0), also when the machine is already running that very state."""
+    meta = H.meta
+    first = first_state(meta)
+    for i, it in enumerate(H.iters):
+        if it.raised is not None:
+            return
+        forced = [j for j, (op, _, f) in enumerate(it.ext) if op == "engage" and f]
+        if not forced:
+            continue
+        j = forced[-1]
+        if any(op in ("done", "on_disable") for op, _, _ in it.ext[j + 1:]):
+            continue
+        tgt = it.ext[j][1] or first
+        if meta[tgt]["kind"] == "default":
+            continue
+        was_in_target = i > 0 and running_after(H.iters[i - 1]) and expected_current(H.iters[i - 1]) == tgt
+        c.reach("forced-engage")
+        if was_in_target:
+            c.reach("forced-engage-into-running-state")
+        x0 = it.calls[0] if it.calls else None
+        ok = x0 is not None and x0.name == tgt
+        c.prove(f"{P}.force forced-engage-runs-target", ok, info=dict(iteration=i, expected=tgt, got=x0.name if x0 else None))
+        if ok:
+            c.prove(f"{P}.force forced-engage-is-a-fresh-entry", s_and(x0.ic, s_eq(x0.state_tm, 0)),
+                    info=dict(iteration=i, state=tgt, already_running_it=was_in_target))
+
+
 # ---------------------------------------------------------------------------------------
 # timing clauses shared by C02 / C03 / C13
 # ---------------------------------------------------------------------------------------
@@ -171,6 +200,8 @@ def _track_after(H, it, origin, s0, d0):
     calls = it.calls
     if not calls or not running_after(it):
         return None
+    if any(x.action in ("done", "done_next") for x in calls[:-1]):
+        return None  # stopped and started again inside one iteration (outside the claim): origin unknown
     L = calls[-1]
     if L.action == "next_state":
         return dict(origin=origin, state=L.target, entered=False, s=None, d=None)
